@@ -7,7 +7,7 @@
    wraps), so dwt_tie_statement itself stays open/unprovable as written; what is missing is only that bound. *)
 From V Require Import Common.Base Tie.GoSem Gen.KernelsSlices_gen Tie.TieDwtSmall.
 Require V.DWT.DwtModel.
-From Scr Require Import DwtTieLib DwtTieFwdEven DwtTieFwdOdd DwtTieInvEven DwtTieInvOdd.
+From V Require Import Tie.DwtTieLib Tie.DwtTieFwdEven Tie.DwtTieFwdOdd Tie.DwtTieInvEven Tie.DwtTieInvOdd.
 
 Definition dwt_tie_bounded_statement : Prop :=
   forall even x, Forall (fun v => - 2 ^ 28 <= v < 2 ^ 28) x -> V.DWT.DwtModel.dwt1d_panics even x = false ->
